@@ -20,6 +20,7 @@ var Epoch = time.Date(2000, 1, 1, 0, 0, 0, 0, time.UTC)
 
 const (
 	FlagBadValidate = 1 << 0 // Validate() fails
+	FlagSoftType    = 1 << 1 // the type's Verify reports every rejection as a soft *header.VerifyError, adjacent or not
 )
 
 var (
@@ -81,7 +82,11 @@ func (h *Header) Verify(u *Header) error {
 	if h.VerifyFn != nil {
 		return h.VerifyFn(u)
 	}
-	return TypeVerify(h, u)
+	err := TypeVerify(h, u)
+	if err != nil && h.Flags&FlagSoftType != 0 {
+		return &header.VerifyError{Reason: err, SoftFailure: true}
+	}
+	return err
 }
 
 // TypeVerify is the default type-level verification.
